@@ -11,6 +11,7 @@ failure, not an alarm).
 """
 import csv
 import io
+import os
 import itertools
 
 from harness import core
@@ -24,7 +25,7 @@ ESCAPE_CHARACTERS = ['"', "\\"]
 LINE_DELIMITERS = ["any", "lf", "cr", "crlf"]
 
 
-def make_format(delim, quote, esc, qall, line_delimiter="any"):
+def make_format(delim, quote, esc, qall, line_delimiter="any", encoding=None):
     """The cutplace DataFormat for a concrete configuration, or the InterfaceError the loader raises."""
     from cutplace import data, errors
     try:
@@ -34,6 +35,8 @@ def make_format(delim, quote, esc, qall, line_delimiter="any"):
         data_format.set_property("escape_character", esc)
         data_format.set_property("quoting", "all" if qall else "minimal")
         data_format.set_property("line_delimiter", line_delimiter)
+        if encoding is not None:
+            data_format.set_property("encoding", encoding)
         data_format.validate()
         return data_format, None
     except errors.InterfaceError as error:
@@ -256,6 +259,32 @@ def run(tier, report):
                 report.violation("c12", {"long_cell": length, "cfg": list(fmt_args)}, None, None,
                                  "item delimiter %r, quote %r, escape %r: a table with a cell of %d characters is read back as %s" % (
                                      fmt_args[0], fmt_args[1], fmt_args[2], length, str(back[1])[:120]))
+    # through files: the writer encodes, the reader decodes -- with the encoding the CID names, for tables whose first
+    # characters are ones that text tools like to treat specially (a zero width no-break space is data like any other)
+    folder = core.workdir("c12files")
+    try:
+        for encoding in ("utf-8", "UTF8", "utf-16", "utf-8-sig", "cp1252", "ascii", "iso-8859-15"):
+            for first in ("\ufeffname", "\ufeff", "\ufffe", "name", "#name", "\u00e4", " name", "'name", ""):
+                if encoding in ("cp1252", "ascii", "iso-8859-15") and not all(ord(ch) < 128 for ch in first):
+                    continue
+                for fmt_args in ((",", '"', '"', False), (",", '"', '"', True), ("\t", "'", "\\", False)):
+                    data_format, _ = make_format(*fmt_args, encoding=encoding)
+                    table = [[first, "note"], ["1", first]]
+                    path = os.path.join(folder, "table.csv")
+                    report.replayed += 1
+                    try:
+                        from cutplace import rowio
+                        with rowio.DelimitedRowWriter(path, data_format) as writer:
+                            writer.write_rows(table)
+                        back = list(rowio.delimited_rows(path, data_format))
+                    except Exception as error:  # noqa
+                        back = "%s: %s" % (type(error).__name__, error)
+                    if back != table:
+                        report.violation("c12", {"file_table": table, "encoding": encoding, "cfg": list(fmt_args)}, table, back,
+                                         "encoding %s, item delimiter %r, quoting %s: table %r written to a file reads back as %r" % (
+                                             encoding, fmt_args[0], "all" if fmt_args[3] else "minimal", table, back))
+    finally:
+        core.cleanup(folder)
     if not report.violations:
         for vec in vectors:
             if vec["phase"] == "read" and vec["table"] and vec["table"][0] and vec["table"][0][0]:
